@@ -73,6 +73,14 @@ def run(ck):
                         DD[bad[0], bad[1]].tolist(), Dref[bad[0], bad[1]].tolist())
             if numpy.abs(HH - HH.T).max() != 0:
                 ck.fail("symmetry", "Hamiltonian not symmetric", inp)
+            # the purely electronic Hamiltonian handed out separately is the same Frenkel matrix (no vibrational modes here)
+            try:
+                He = numpy.array(agg.get_electronic_Hamiltonian().data) / fac
+                if He.shape != Href.shape or numpy.abs(He - Href).max() > 1e-9 * max(1.0, numpy.abs(Href).max()):
+                    ck.fail("electronic-hamiltonian", "get_electronic_Hamiltonian() differs from the Frenkel-exciton rule", inp,
+                            float(numpy.abs(He - Href).max()) if He.shape == Href.shape else list(He.shape))
+            except Exception as e:
+                ck.fail("raises:electronic-hamiltonian", "get_electronic_Hamiltonian raised %r" % (e,), inp)
             # ---- the operators handed out stay the Frenkel ones after the aggregate transformed its internal copies ----------
             if rep % 2 == 0 and n >= 2:
                 try:
